@@ -31,10 +31,13 @@ NA = -999999999
 DEFAULT_CONC = {"unit": 1.0, "off": 0, "tbase": 1577836800,  # 2020-01-01T00:00:00
                 "xc": "f64", "ac": "f64", "tc": "dt64ns", "spanc": "list", "pc": "kw"}
 
-DATA_CARRIERS = ["list_none", "list_nan", "tuple_nan", "f64", "f32", "i64", "ma_nan", "ma_junk", "ma_mixed",
+DATA_CARRIERS = ["list_none", "list_nan", "tuple_nan", "f64", "f32", "i64", "ma_nan", "ma_junk", "ma_mixed", "series_shuf",
                  "series", "series_idx", "dask"]
 TIME_CARRIERS = ["dt64ns", "dt64us", "dt64ms", "dt64s", "pydt", "pdts", "dtindex", "series_naive",
-                 "series_utc", "dtindex_utc", "epoch_list", "epoch_i64", "epoch_f64"]
+                 "series_utc", "dtindex_utc", "series_utc_us", "dtindex_utc_s", "dtindex_us", "epoch_list", "epoch_i64", "epoch_f64"]
+
+
+SHARED_CLIM = {}
 
 
 def rat(q, scale=1.0):
@@ -82,6 +85,9 @@ def carry_data(vals, carrier, conc=None, f=None):
         return pd.Series(np.array(fl, dtype=np.float64))
     if carrier == "series_idx":
         return pd.Series(np.array(fl, dtype=np.float64), index=[10 * (i + 3) for i in range(len(fl))])
+    if carrier == "series_shuf":
+        # labels are a permutation of the positions: any alignment by label instead of by position shows
+        return pd.Series(np.array(fl, dtype=np.float64), index=list(range(len(fl) - 1, -1, -1)))
     if carrier == "dask":
         import dask.array as da
         return da.from_array(np.array(fl, dtype=np.float64), chunks=max(1, (len(fl) + 1) // 2))
@@ -114,6 +120,12 @@ def carry_time(secs, carrier, tbase, tunit=1):
         return pd.Series(pd.DatetimeIndex(a_s.astype("datetime64[ns]")).tz_localize("UTC"))
     if carrier == "dtindex_utc":
         return pd.DatetimeIndex(a_s.astype("datetime64[ns]")).tz_localize("UTC")
+    if carrier == "series_utc_us":        # pandas objects keep the unit of the array they are built from
+        return pd.Series(pd.DatetimeIndex(a_s.astype("datetime64[us]")).tz_localize("UTC"))
+    if carrier == "dtindex_utc_s":
+        return pd.DatetimeIndex(a_s).tz_localize("UTC")
+    if carrier == "dtindex_us":
+        return pd.DatetimeIndex(a_s.astype("datetime64[us]"))
     if carrier == "epoch_list":
         return list(ep)
     if carrier == "epoch_i64":
@@ -289,7 +301,17 @@ def build(call, conc):
             if len(m["zspan"]):
                 d["zspan"] = span(m["zspan"], c, float)
             members.append(d)
-        if c.get("climc") == "object":
+        if c.get("climc") == "shared":
+            # one caller-owned ClimatologyConfig object re-used by every call with the same member list (history)
+            import json as _json
+            key = _json.dumps([p["members"], c["unit"], c["off"], c.get("spanc"), c.get("tspanc")], sort_keys=True)
+            if key not in SHARED_CLIM:
+                cfg0 = qartod.ClimatologyConfig()
+                for d in members:
+                    cfg0.add(**d)
+                SHARED_CLIM[key] = cfg0
+            cfg = SHARED_CLIM[key]
+        elif c.get("climc") == "object":
             cfg = qartod.ClimatologyConfig()
             for d in members:
                 cfg.add(**d)
